@@ -18,6 +18,9 @@
 //        R nbrs N K ints ; R lm nl 1 ints (liso) ; R geo r c .. ; R B<i> n m .. (each matrix handed to
 //        eigendecomposition_via, in call order) ; R emb N d ..
 //   EIG <n> <n*n doubles>     R vals n 1 (ascending) ; R vecs n n
+//   BIG <threads> <N> <e> <nl> lm..   path graph, k = 2, distance |a-b| * 2^e, on a thread with an 8 MiB stack:
+//        R conn 1 2 (is_connected of the path graph, of the forward-only chain) ; R lshape 1 2 ; R l<r> (run-length
+//        encoded row r of the landmark overload) ; for N <= 4000 also R fshape 1 2 ; R f<r> (full overload)
 #include <cfloat>
 #include <cmath>
 #include <cstdio>
@@ -29,6 +32,8 @@
 #include <string>
 #include <vector>
 #include <omp.h>
+#include <pthread.h>
+#include <stdexcept>
 
 // C04_WITH_ISO (harness-side switch): also compile observation points (b) and (c).  Without it the
 // translation unit contains only routines/isomap.hpp (10 s instead of 80 s per sanitizer build).
@@ -38,6 +43,7 @@
 #include <tapkee/routines/eigendecomposition.hpp>
 #endif
 #include <tapkee/routines/isomap.hpp>
+#include <tapkee/neighbors/connected.hpp>
 #ifdef C04_WITH_ISO
 #include <tapkee/routines/landmarks.hpp>
 #include <tapkee/routines/multidimensional_scaling.hpp>
@@ -244,6 +250,132 @@ static void run_sp(int k, std::istringstream& is)
     }
 }
 
+// ---------------------------------------------------------------------------------------------------
+// BIG: one large cheap case per run (stack depth / memory behaviour of the Isomap pipeline for large N).
+// Path graph with k = 2 on N samples at positions 0, 1, .., N-1 on a line, distance |a - b| * 2^e:
+//   vertex i has the neighbours {i-1, i+1} (order alternates with the parity of i), vertex 0 has {1, 2} and
+//   vertex N-1 has {N-2, N-3}.  Calls, on a thread whose stack is EXPLICITLY 8 MiB (the default of glibc):
+//   is_connected on that graph, is_connected on the forward-only chain (i -> i+1, i+1; last -> N-2),
+//   the landmark overload, and (only for N <= 4000) the full overload.  Rows are printed as a lossless
+//   run-length encoding of their first differences: R l<r>|f<r> <nruns> 2 <first> {<count> <diff>}*.
+struct line_callback
+{
+    double unit;
+    inline ScalarType distance(IndexType a, IndexType b) const
+    {
+        return (a > b ? double(a - b) : double(b - a)) * unit;
+    }
+};
+
+static void print_rle(const std::string& tag, const DenseMatrix& M, int row)
+{
+    std::ostringstream os;
+    std::vector<std::pair<long, double>> runs;
+    for (int j = 0; j + 1 < M.cols(); j++)
+    {
+        double dlt = M(row, j + 1) - M(row, j);
+        // (bitwise-equal or both NaN) extends the run
+        if (!runs.empty() && (runs.back().second == dlt || (std::isnan(dlt) && std::isnan(runs.back().second))))
+            runs.back().first++;
+        else
+        {
+            if (runs.size() >= 2000) break; // far more than any correct answer needs: the rest is not printed
+            runs.push_back(std::make_pair(1L, dlt));
+        }
+    }
+    os << "R " << tag << " " << runs.size() << " 2 " << hexd(M(row, 0));
+    for (auto& r : runs)
+        os << " " << r.first << " " << hexd(r.second);
+    std::cout << os.str() << std::endl;
+}
+
+struct big_args
+{
+    int threads, N, e;
+    std::vector<int> lm;
+    std::string error;
+};
+
+static void* big_body(void* p)
+{
+    big_args& a = *static_cast<big_args*>(p);
+    try
+    {
+        const int N = a.N;
+        tapkee_internal::Neighbors nbrs(N), chain(N);
+        for (int i = 0; i < N; i++)
+        {
+            if (i == 0)
+                nbrs[i] = {1, 2};
+            else if (i == N - 1)
+                nbrs[i] = {N - 2, N - 3};
+            else if (i % 2)
+                nbrs[i] = {i + 1, i - 1};
+            else
+                nbrs[i] = {i - 1, i + 1};
+            chain[i] = (i == N - 1) ? tapkee_internal::LocalNeighbors{N - 2, N - 2}
+                                    : tapkee_internal::LocalNeighbors{i + 1, i + 1};
+        }
+        std::vector<IndexType> idx(N);
+        std::iota(idx.begin(), idx.end(), 0);
+        omp_set_num_threads(a.threads);
+        DenseMatrix c(1, 2);
+        c(0, 0) = tapkee_internal::is_connected(idx.begin(), idx.end(), nbrs) ? 1.0 : 0.0;
+        c(0, 1) = tapkee_internal::is_connected(idx.begin(), idx.end(), chain) ? 1.0 : 0.0;
+        print_matrix("conn", c);
+        line_callback cb{std::ldexp(1.0, a.e)};
+        if (!a.lm.empty())
+        {
+            tapkee_internal::Landmarks lm(a.lm.begin(), a.lm.end());
+            DenseMatrix land = tapkee_internal::compute_shortest_distances_matrix(idx.begin(), idx.end(), lm, nbrs, cb);
+            DenseMatrix shape(1, 2);
+            shape(0, 0) = land.rows();
+            shape(0, 1) = land.cols();
+            print_matrix("lshape", shape);
+            for (int r = 0; r < land.rows(); r++)
+                print_rle("l" + std::to_string(r), land, r);
+        }
+        if (N <= 4000)
+        {
+            DenseMatrix full = tapkee_internal::compute_shortest_distances_matrix(idx.begin(), idx.end(), nbrs, cb);
+            DenseMatrix shape(1, 2);
+            shape(0, 0) = full.rows();
+            shape(0, 1) = full.cols();
+            print_matrix("fshape", shape);
+            for (int r = 0; r < full.rows(); r++)
+                print_rle("f" + std::to_string(r), full, r);
+        }
+    }
+    catch (const std::exception& ex)
+    {
+        a.error = ex.what();
+    }
+    return nullptr;
+}
+
+static void run_big(int k, std::istringstream& is)
+{
+    big_args a;
+    int nl;
+    if (!(is >> a.threads >> a.N >> a.e >> nl) || a.N < 3 || a.N > 4000000 || a.threads < 1 || a.threads > 64 ||
+        a.e < -300 || a.e > 300 || nl < 0 || nl > 64)
+        return bad(k, "header");
+    for (int i = 0; i < nl; i++)
+    {
+        int v;
+        if (!(is >> v) || v < 0 || v >= a.N) return bad(k, "landmark");
+        a.lm.push_back(v);
+    }
+    pthread_attr_t attr;
+    pthread_attr_init(&attr);
+    pthread_attr_setstacksize(&attr, 8u << 20);
+    pthread_t th;
+    if (pthread_create(&th, &attr, big_body, &a) != 0) return bad(k, "pthread_create");
+    pthread_join(th, nullptr);
+    pthread_attr_destroy(&attr);
+    if (!a.error.empty()) throw std::runtime_error(a.error);
+}
+
 #ifdef C04_WITH_ISO
 static void run_iso(int k, std::istringstream& is)
 {
@@ -371,6 +503,8 @@ int main()
         {
             if (cmd == "SP")
                 run_sp(k, is);
+            else if (cmd == "BIG")
+                run_big(k, is);
 #ifdef C04_WITH_ISO
             else if (cmd == "ISO")
                 run_iso(k, is);
